@@ -300,7 +300,15 @@ def run_impl(spec, solver, limit, hints, kwargs=None, model=None, timeout=5):
         return ("bad", "solve changed the Model (variables, literal numbering, constraint list or _next_bool)")
     r = res[1]
     sols = list(r.solutions) if r.solutions is not None else ([r.solution] if r.solution is not None else [])
+    try:
+        _seen_iterations["sat" if (solver == "sat" or not dfs_supported(spec)) else "dfs"].append(int(r.iterations))
+        _seen_iterations["sols"].append(len(sols))
+    except (TypeError, ValueError):
+        pass
     return ("ok", r.status.name, [dict(s) if isinstance(s, dict) else s for s in sols], r.solution)
+
+
+_seen_iterations = {"dfs": [0], "sat": [0], "sols": [0]}
 
 
 def judge(spec, truth, solver, limit, hints, out, budget=False):
@@ -963,6 +971,244 @@ def known_cases(rng, thorough):
     return out
 
 
+
+# =================================================================================================
+# Round 3 (HARDENING.md addendum): W work volume, A2 in-place edits between calls, X float arguments
+# =================================================================================================
+class WorkMeter:
+    """Counts the work of the implementation's loops from outside (no hook in /repo): sweeps of one _propagate call
+    (= calls of _propagate_constraint / number of constraints), _propagate calls, and reads Result.iterations (nodes)."""
+
+    def __init__(self):
+        self.max_sweeps = 0
+        self.propagations = 0
+
+    def __enter__(self):
+        from solvor.cp import Model
+
+        self._Model = Model
+        self._p, self._pc = Model._propagate, Model._propagate_constraint
+        meter = self
+
+        def counted_pc(model, constraint, domains):
+            meter._calls += 1
+            return meter._pc(model, constraint, domains)
+
+        def counted_p(model, domains):
+            meter._calls = 0
+            meter.propagations += 1
+            try:
+                return meter._p(model, domains)
+            finally:
+                k = max(1, len(model._constraints))
+                meter.max_sweeps = max(meter.max_sweeps, -(-meter._calls // k))
+
+        Model._propagate, Model._propagate_constraint = counted_p, counted_pc
+        return self
+
+    def __exit__(self, *a):
+        self._Model._propagate, self._Model._propagate_constraint = self._p, self._pc
+
+
+def cyclic_spec(rng, small=True):
+    """Cyclic offset equalities over 2..3 variables (x == y, x + a == y, ...): arc consistency trims the domains one
+    or two values per sweep, so one _propagate call needs about D / |sum of offsets| sweeps - far more than
+    variables + constraints.  Unsatisfiable when the offsets around the cycle do not cancel; a 0/1 switch variable
+    in one of the equalities makes a satisfiable sibling (z = 1 repairs the cycle).  Small: brute-forced."""
+    k = rng.choice([2, 2, 3])
+    D = rng.randint(8, 64) if k == 2 else rng.randint(8, 16)
+    lo = rng.choice([0, 0, -5, 3, 100])
+    vs = [[f"c{i}", lo + rng.randint(0, 2), lo + D - 1 - rng.randint(0, 2)] for i in range(k)]
+    offs = [rng.choice([0, 0, 1, 1, -1, 2, -2, 3]) for _ in range(k)]
+    if sum(offs) == 0 and rng.random() < 0.7:
+        offs[rng.randrange(k)] += rng.choice([1, -1, 2])
+    switch = rng.random() < 0.4
+    if switch:
+        vs.insert(0, ["z", 0, 1])
+    base = 1 if switch else 0
+    cons = []
+    for i in range(k):
+        a, b = base + i, base + (i + 1) % k
+        lhs, rhs = (V(a) if offs[i] == 0 else ["add", V(a), K(offs[i])]), V(b)
+        if switch and i == k - 1:  # z * total repairs the cycle when z = 1
+            rhs = ["add", rhs, ["mul", sum(offs), V(0)]]
+        if rng.random() < 0.3:
+            lhs, rhs = rhs, lhs
+        cons.append(["lin", lhs, rhs, False])
+    rng.shuffle(cons)
+    if rng.random() < 0.3:
+        cons.append(rand_constraint(rng, len(vs), True))
+    return {"vars": vs, "cons": cons, "family": "W"}
+
+
+def work_cases(rng, thorough):
+    """(label, spec, known, settings, timeout): by-construction instances that maximise the iteration count of one
+    loop of the implementation at moderate input size (2^7 .. 2^12 / 10^4 in quick, 10^4 .. 10^5 in thorough)."""
+    out = []
+    # sweeps of one _propagate call: x == y, x + 1 == y trims two values per sweep -> D / 2 sweeps
+    sizes = [(300, False), (2100, True), (8300, rng.random() < 0.5)] + ([(20100, False), (20100, True)] if thorough else [])
+    for D, switch in sizes:
+        off = 1
+        vs = ([["z", 0, 1]] if switch else []) + [["x", 0, D - 1], ["y", 0, D - 1]]
+        b = 1 if switch else 0
+        second = ["lin", ["add", V(b), K(off)], ["add", V(b + 1), ["mul", off, V(0)]] if switch else V(b + 1), False]
+        cons = [["lin", V(b), V(b + 1), False], second]
+        out.append((f"sweeps~{D // 2}", {"vars": vs, "cons": cons}, {"feasible": switch}, [(rng.choice(["dfs", "auto"]), 1)], 600))
+    D = 300
+    out.append(("sweeps_sat", {"vars": [["x", 0, D - 1], ["y", 0, D - 1]], "cons": [["lin", V(0), V(1), False], ["lin", ["add", V(0), K(1)], V(1), False]]},
+                {"feasible": False}, [("sat", 1)], 120))
+    # the loop over the values of one node: N values, all of them solutions
+    N = 10007 if not thorough else 20011
+    out.append((f"values={N}", {"vars": [["x", 5, N + 4]], "cons": []}, {"feasible": True, "count": N}, [("dfs", 10**6)], 600))
+    # operators of one expression (_linearize, and the pairwise folding of the encoder)
+    for k in [2100, 5001] + ([20001] if thorough else []):
+        step = k // 10
+        vs = [[f"t{i}", 0, 1] if i % step == 0 else [f"t{i}", 2, 2] for i in range(k)]
+        fixed = sum(2 for i in range(k) if i % step != 0)
+        sp = {"vars": vs, "cons": [["lin", _sumexpr(list(range(k))), K(fixed + 4), False]]}
+        out.append((f"terms={k}", sp, {"feasible": True}, [("dfs", 2), ("sat", 1)], 600))
+    # time points of one cumulative constraint (tasks far apart), pairs of no_overlap, positions of circuit
+    far = 10**4 if not thorough else 10**5
+    for cap, feas in ((4, True), (3, False)):
+        sp = {"vars": [["a", 0, 1], ["b", far, far + 1], ["c", far, far + 1]], "cons": [["cumulative", [0, 1, 2], [2, 3, 3], [1, 2, 2], cap]]}
+        out.append((f"timepoints={far}", sp, {"feasible": feas}, [("auto", 1), ("sat", 2)], 600))
+    n = 70 if not thorough else 130
+    sp = {"vars": [[f"s{i}", 3 * i, 3 * i + 1] for i in range(n)], "cons": [["no_overlap", list(range(n)), [2] * n]]}
+    out.append((f"no_overlap_pairs={n * (n - 1) // 2}", sp, {"feasible": True}, [("auto", 1)], 600))
+    vs2 = [[f"s{i}", 3 * i, 3 * i + 1] for i in range(n)]
+    vs2[-1] = [f"s{n - 1}", 3 * (n - 2) + 1, 3 * (n - 2) + 2]  # squeezed behind its neighbour: cannot fit
+    vs2[-2] = [f"s{n - 2}", 3 * (n - 2), 3 * (n - 2) + 1]
+    out.append((f"no_overlap_pairs={n * (n - 1) // 2}", {"vars": vs2, "cons": [["no_overlap", list(range(n)), [2] * (n - 2) + [3, 3]]]},
+                {"feasible": False}, [("auto", 1)], 600))
+    n = 8 if not thorough else 10
+    sp = {"vars": [[f"c{i}", 0, n - 1] for i in range(n)], "cons": [["circuit", list(range(n))]]}
+    out.append((f"circuit_n={n}", sp, {"feasible": True}, [("auto", 1)], 600))
+    # conflicts of the SAT search: pigeonhole
+    n = 7 if not thorough else 8
+    sp = {"vars": [[f"p{i}", 1, n - 1] for i in range(n)], "cons": [["all_different", list(range(n))]]}
+    out.append((f"sat_pigeonhole_{n}", sp, {"feasible": False}, [("sat", 1)], 600))
+    return out
+
+
+def inplace_check(rng, spec, hints, fresh):
+    """Class A2: solve, then EDIT THE SAME Model in place (add the remaining constraints, create the last variable),
+    solve again with every back-end and compare with a fresh model of the full spec; the same hints dictionary object
+    is edited between two calls as well."""
+    from solvor.cp import Model
+
+    cons = spec["cons"]
+    if not cons:
+        return [], 0
+    cut = rng.randrange(len(cons))
+    used_last = any(_uses_var(c, len(spec["vars"]) - 1) for c in cons[:cut])
+    late_var = len(spec["vars"]) >= 2 and not used_last and rng.random() < 0.6
+    m = Model()
+    nv0 = len(spec["vars"]) - (1 if late_var else 0)
+    xs = [m.int_var(lo, hi, nm) if nm is not None else m.int_var(lo, hi) for (nm, lo, hi) in spec["vars"][:nv0]]
+    style = spec.get("iter", "list")
+    try:
+        for c in cons[:cut]:
+            m.add(build_constraint(m, c, xs, style))
+        bad, runs = [], 0
+        for solver in rng.sample(SOLVERS, 2):  # warm every cache there might be
+            guarded(lambda: m.solve(solver=solver, solution_limit=rng.choice(LIMITS)), timeout=20)
+            runs += 1
+        if late_var:
+            nm, lo, hi = spec["vars"][-1]
+            xs.append(m.int_var(lo, hi, nm) if nm is not None else m.int_var(lo, hi))
+        for c in cons[cut:]:
+            m.add(build_constraint(m, c, xs, style))
+    except (TypeError, ValueError):
+        return [], 0
+    m._c05_inputs = []
+    settings = [(s, l) for s in SOLVERS for l in LIMITS]
+    rng.shuffle(settings)
+    for solver, limit in settings[:6]:
+        out = run_impl(spec, solver, limit, None, model=m)
+        runs += 1
+        ref = fresh.get((solver, limit, True))
+        if ref is None or ref[0] != "ok":
+            continue
+        if out[0] != "ok" or (out[1], out[2]) != (ref[1], ref[2]):
+            bad.append((solver, limit, None, f"after constraints{' and a variable' if late_var else ''} were added to a Model that "
+                        f"had been solved before, the answer differs from a fresh model of the same final contents: "
+                        f"{str(out[1:3])[:200]} vs {str(ref[1:3])[:200]}", out))
+    # the caller edits its hints dictionary in place between two calls
+    if hints:
+        h = {k: v + 1 for k, v in hints.items()}
+        solver, limit = rng.choice(SOLVERS), rng.choice(LIMITS)
+        guarded(lambda: m.solve(solver=solver, solution_limit=limit, hints=h), timeout=20)
+        h.clear()
+        h.update(hints)
+        res = guarded(lambda: m.solve(solver=solver, solution_limit=limit, hints=h), timeout=20)
+        runs += 2
+        ref = fresh.get((solver, limit, False))
+        if ref is not None and ref[0] == "ok" and res[0] == "ok":
+            r = res[1]
+            sols = list(r.solutions) if r.solutions is not None else ([r.solution] if r.solution is not None else [])
+            if (r.status.name, sols) != (ref[1], ref[2]):
+                bad.append((solver, limit, hints, "after the caller edited its hints dictionary in place, the answer differs from a "
+                            f"fresh call with the same contents: {str((r.status.name, sols))[:200]} vs {str(ref[1:3])[:200]}", None))
+    return bad, runs
+
+
+def _uses_var(c, i):
+    def in_expr(e):
+        return (e[0] == "var" and e[1] == i) or (e[0] in ("add", "sub") and (in_expr(e[1]) or in_expr(e[2]))) or \
+               (e[0] in ("mul", "rmul") and in_expr(e[2]))
+    if c[0] == "lin":
+        return in_expr(c[1]) or in_expr(c[2])
+    return i in c[1]
+
+
+def float_variant(rng, spec):
+    """Class X (the property is about integers: only the part "integral floats vs ints in every numeric argument"
+    applies): one numeric ARGUMENT of a global constraint becomes the equal float (33.0 for 33, -0.0 for 0).  The
+    meaning is unchanged, so the brute-force oracle of the integer spec judges; a call that raises is a refusal."""
+    sp = json.loads(json.dumps(spec))
+    cand = [k for k, c in enumerate(sp["cons"]) if c[0] in ("sum_eq", "sum_le", "sum_ge", "cumulative", "no_overlap")]
+    if not cand:
+        return None
+    c = sp["cons"][rng.choice(cand)]
+
+    def pick(x):
+        if abs(x) > 2**53 or float(x) != x:
+            raise OverflowError  # no equal float exists
+        return -0.0 if x == 0 and rng.random() < 0.5 else float(x)
+
+    if c[0] in ("sum_eq", "sum_le", "sum_ge"):
+        c[2] = pick(c[2])
+    elif c[0] == "no_overlap":
+        if not c[2]:
+            return None
+        j = rng.randrange(len(c[2]))
+        c[2][j] = pick(c[2][j])
+    else:
+        r = rng.random()
+        if r < 0.4:
+            c[4] = pick(c[4])
+        elif c[3]:
+            j = rng.randrange(len(c[3]))
+            which = 3 if r < 0.8 else 2
+            c[which][j] = pick(c[which][j])
+    sp["family"] = "X"
+    return sp
+
+
+def judge_float(spec, truth, solver, limit, out, hints=None):
+    """As judge, but a refusal (any exception) is fine and returned values are compared numerically."""
+    if out[0] == "exc":
+        return None
+    if out[0] == "ok":
+        _, status, sols, first = out
+        for sol in sols:
+            if isinstance(sol, dict):
+                for k, v in list(sol.items()):
+                    if isinstance(v, float) and v == int(v):
+                        sol[k] = int(v)
+    return judge(spec, truth, solver, limit, hints, out)
+
+
 def regression_cases():
     """corpus/C05/*.json with a "regression" descriptor: structured models too large to store literally."""
     out = []
@@ -1365,7 +1611,7 @@ def run(ctx: Ctx):
     specs = []
     seen_events = {}
     for o in _corpus():
-        if o.get("candidate_finding") or o.get("regression"):
+        if o.get("candidate_finding") or o.get("regression") or o.get("observation_only"):
             continue
         specs.append({"vars": o["vars"], "cons": o["cons"], "hints": o.get("hints"), "family": "corpus"})
         for e in o.get("events", []):
@@ -1383,6 +1629,9 @@ def run(ctx: Ctx):
     # M: magnitudes
     for _ in range(ctx.budget(90, 1500)):
         specs.append(decorate(ctx.rng, rand_spec_big(ctx.rng)))
+    # W (small, brute-forced): cyclic offset equalities needing many propagation sweeps
+    for _ in range(ctx.budget(45, 700)):
+        specs.append(decorate(ctx.rng, cyclic_spec(ctx.rng)))
     # H: event-directed
     for score, sp, new in event_guided(ctx.rng, ctx.budget(40, 500), seen_events, ctx.budget(1500, 25000)):
         specs.append(sp)
@@ -1426,13 +1675,43 @@ def run(ctx: Ctx):
             report(sp, solver, limit, h, bad, out)
         if not rec["bad"]:
             r = ctx.rng.random()
+            if r < 0.30 and not dfs_supported(sp):  # X: an equal float in place of an int argument
+                try:
+                    fs = float_variant(ctx.rng, sp)
+                except OverflowError:
+                    fs = None
+                if fs is not None:
+                    ctx.count("extra", "float_argument")
+                    for solver in SOLVERS:
+                        limit = ctx.rng.choice([1, 3, 1000, 3.0])
+                        out = run_impl(fs, solver, limit, None)
+                        ctx.evaluations += 1
+                        ctx.count("float_outcome", out[0] if out[0] != "exc" else "refused:" + out[1])
+                        # POLICY_X (e): float-typed durations / demands / capacities / targets are outside the property:
+                        # observation only (anything may be returned or raised; a hang is cut by the guard and counted)
+                        verdict = judge_float(sp, rec["truth"], solver, int(limit), out) if out[0] == "ok" else out[0]
+                        ctx.count("observation_only", "float constraint argument: " + ("as for the int" if verdict is None else
+                                                                                      ("differs" if out[0] == "ok" else str(verdict))))
+                    fh = {k: float(v) for k, v in hints.items() if abs(v) < 2**53}
+                    for solver in ("dfs", "sat"):
+                        out = run_impl(sp, solver, 3, fh)
+                        ctx.evaluations += 1
+                        bad = judge_float(sp, rec["truth"], solver, 3, out, hints=fh)
+                        if bad:
+                            report(sp, solver, 3, fh, bad, out, extra="float hint values")
             if r < 0.25:  # A: call sequences on one Model object
                 bad, runs = sequence_check(ctx.rng, sp, hints, rec["outs"])
                 ctx.evaluations += runs
                 ctx.count("extra", "sequence")
                 for solver, limit, h, msg, out in bad[:1]:
                     report(sp, solver, limit, h, msg, out, extra="after other solves on the same Model")
-            elif r < 0.37:  # O: option corners and sweeps
+            elif r < 0.50:  # A2: the same Model edited in place between solves
+                bad, runs = inplace_check(ctx.rng, sp, hints, rec["outs"])
+                ctx.evaluations += runs
+                ctx.count("extra", "inplace_edit")
+                for solver, limit, h, msg, out in bad[:1]:
+                    report(sp, solver, limit, h, msg, out, extra="in-place edit between calls")
+            elif r < 0.62:  # O: option corners and sweeps
                 bad, runs = sweep_options(ctx.rng, sp, rec["truth"], hints)
                 ctx.evaluations += runs
                 ctx.count("extra", "option_sweep")
@@ -1459,6 +1738,33 @@ def run(ctx: Ctx):
         for term in rec["ans_cases"]:
             ans_cases.append(term)
             ans_meta.append({"vars": len(sp["vars"]), "cons": len(sp["cons"])})
+
+    # W: work volume, one loop at a time; the counts reached are reported in the evidence
+    work = {"propagate_sweeps_one_call": 0, "dfs_nodes": 0, "values_of_one_node": 0, "expression_terms": 0,
+            "cumulative_time_points": 0, "sat_decisions": 0, "solutions_enumerated": 0}
+    for label, sp, known, settings, timeout in work_cases(ctx.rng, thorough):
+        with WorkMeter() as wm:
+            rec = explore_known(sp, known, settings, timeout)
+        ctx.evaluations += rec["runs"]
+        ctx.count("family", "W")
+        ctx.count("work_case", label)
+        work["propagate_sweeps_one_call"] = max(work["propagate_sweeps_one_call"], wm.max_sweeps)
+        if label.startswith("values="):
+            work["values_of_one_node"] = max(work["values_of_one_node"], known["count"])
+        if label.startswith("terms="):
+            work["expression_terms"] = max(work["expression_terms"], len(sp["vars"]))
+        if label.startswith("timepoints="):
+            work["cumulative_time_points"] = max(work["cumulative_time_points"], int(label.split("=")[1]))
+        for solver, limit, h, bad, out in rec["bad"]:
+            ctx.violation(f"Model.solve(solver={solver!r}, solution_limit={limit}) on a work-volume instance ({label}): {bad}",
+                          {"spec": sp if len(sp["vars"]) < 50 else {"vars": sp["vars"][:5] + ["..."], "cons": str(sp["cons"])[:300]},
+                           "label": label, "known": known, "solver": solver, "limit": limit, "hints": None, "impl": str(out)[:300]})
+    work["dfs_nodes"] = max([work["dfs_nodes"]] + _seen_iterations["dfs"])
+    work["sat_decisions"] = max([work["sat_decisions"]] + _seen_iterations["sat"])
+    work["solutions_enumerated"] = max([0] + _seen_iterations["sols"])
+    ctx.extra["work_volume_max"] = work
+    for k, v in work.items():
+        ctx.count("work_max", f"{k}={v}")
 
     fail_dfs = ctx.coq_check(
         "dfs", IMPORTS, "cpmodel * list (nat * Z) * Z * list sol",
@@ -1524,6 +1830,14 @@ def run(ctx: Ctx):
         "SAT budgets from 0 (MAX_ITER accepted only with an explicit budget), A caller objects and the Model unchanged by solve, "
         "answers independent of earlier solves on the same Model, duplicated constraints, H event-directed specs (reference port "
         "used for steering only)",
+        "round-3 families: W work volume per loop (propagation sweeps of one call via cyclic offset equalities - small ones brute-forced "
+        "and in the Coq correspondence, large ones by construction -, DFS nodes, values of one node, operators of one expression, "
+        "cumulative time points, no_overlap pairs, circuit positions, SAT decisions); maxima reached in coverage.work_volume_max; "
+        "A2 the same Model edited in place between solves (constraints and a variable added; hints dictionary edited) against a fresh "
+        "model; X: float hint values and a float solution_limit equal to the ints are judged; float-typed durations / demands / "
+        "capacities / sum targets are OBSERVATION-ONLY (outside the property by coordinator policy X(e): counted in the histogram "
+        "observation_only, never a violation; corpus/C05/float_duration_2p53.json documents the observed rounding above 2^53); "
+        "two int_var with one name are outside the property as well (policy X(d)) and not generated",
         "models beyond Python's default recursion limit (1025..2049 open variables / terms of one sum) are part of the S family "
         "since the fix 6a89d67",
     ]
